@@ -20,7 +20,7 @@ def slot_unit(prog, nsteal, nthief, K=1, tso=False):
 KISSAT = ['--unwind', '16', '--external-sat-solver', 'kissat']
 # native replay: thread-mode code forms &p->f from a not-yet-loaded (null) static temporary without accessing it; UBSan's null check would
 # abort the replay before the real assertion is reached
-NATIVE = ['-fno-sanitize=null']
+NATIVE = ['-fno-sanitize=null,pointer-overflow']
 T_ONLY = ['thorough']
 
 def deque(prog, nsteal, nthief, ninit, head, rounds, K=1, tiers=('quick', 'thorough'), extra=None, timeout=900, tso=False, mem_gb=12):
@@ -145,7 +145,7 @@ for sh in (1, 2, 3):
 DQ = 'allocatorIS4_EEE'   # std::deque<d1::task*, cache_aligned_allocator<d1::task*>>::
 STREAM_CUT = [DQ + '9push_backERKS4_', DQ + '5emptyEv', DQ + '5frontEv', DQ + '9pop_frontEv', DQ + '5beginEv', DQ + '3endEv', DQ + '8pop_backEv',
               DQ + '17_M_initialize_mapEm']
-SOP = {'push': 1, 'pop': 2, 'spec': 3, 'push2': 4}
+SOP = {'push': 1, 'pop': 2, 'spec': 3, 'push2': 4, 'pop2': 5}
 def stream_unit(a, b, K):
     name = 'stream_%s_%s_k%d' % (a, b, K)
     if name not in UNITS:
@@ -157,7 +157,7 @@ def stream(a, b, pre, rounds, K=2, tiers=('quick', 'thorough'), timeout=900, ext
     sc = {'PRE': pre, 'ROUNDS': rounds}
     sc.update(extra or {})
     HARNESSES.append(dict(
-        name='stream_%s_%s_pre%d_r%d' % (a, b, pre, rounds), unit=stream_unit(a, b, K), harness='h_stream.c',
+        name='stream_%s_%s_pre%d_r%d%s' % (a, b, pre, rounds, ''.join('_%s%s' % (k.lower(), v) for k, v in sorted((extra or {}).items()))), unit=stream_unit(a, b, K), harness='h_stream.c',
         defines={'SA': SOP[a], 'SB': SOP[b]}, scenarios=[sc], tiers=list(tiers), timeout=timeout, cbmc=KISSAT, native_cflags=NATIVE,
         desc='task_stream (2 lanes): thread a %s || thread b %s, %d task(s) pushed before; real push/try_push/pop/try_pop/pop_specific/look_specific, '
              'population bit operations and lane mutex; lane queue (std::deque) cut to a bounded harness queue; at quiescence lane non-empty <=> population '
@@ -167,24 +167,34 @@ def stream(a, b, pre, rounds, K=2, tiers=('quick', 'thorough'), timeout=900, ext
 
 stream('push', 'pop', 1, 2)        # pop drains the lane while a push refills it
 stream('push', 'spec', 1, 2, K=1)  # same with pop_specific / look_specific (symbolic isolation)
+stream('push', 'pop2', 1, 2, K=1)  # two pops empty the lane around a push (spurious / missing bit)
 stream('push', 'push', 1, 2)       # two pushes contend for one lane mutex (the loser moves on to the other lane)
+stream('push', 'pop', 1, 3, tiers=T_ONLY, timeout=3000)
+stream('push', 'spec', 1, 3, K=1, tiers=T_ONLY, timeout=3000)
+stream('push', 'pop2', 1, 3, K=1, tiers=T_ONLY, timeout=3000)
+stream('push2', 'pop', 0, 2, tiers=T_ONLY, timeout=3000)
+stream('push', 'spec', 2, 2, K=1, tiers=T_ONLY, timeout=3000)    # look_specific walks two entries (holes left in the lane)
+stream('pop', 'spec', 2, 2, K=1, tiers=T_ONLY, timeout=3000)     # two takers
+stream('push', 'pop', 1, 2, tiers=T_ONLY, timeout=3000, extra={'HM': 1})
 
 MANIFEST = dict(
   level_text='Bounded model checking of the real scheduler data structures that decide who runs a task: for 2-3 threads every interleaving (at '
              'single-IR-memory-operation granularity, bounded number of scheduling rounds) of (a) the per-thread ready deque arena_slot '
              '(owner get_task / spawn incl. pool compaction vs thieves steal_task, isolation tags, holes), (b) affinity mail (r1::spawn with a slot id, '
              'task_proxy::extract_task from pool side and mailbox side, mail_outbox push / pop, arena::steal_task) and (c) the outstanding-work counters '
-             '(wait_context, reference_vertex, fold_tree over tree_node/wait_node) is decided by a SAT solver: no task is handed out twice, none is lost '
+             '(wait_context, reference_vertex, fold_tree over tree_node/wait_node) and (d) task_stream lanes (push vs pop / pop_specific: population bitmap '
+             'vs lane content, lane queue cut to a bounded queue) is decided by a SAT solver: no task is handed out twice, none is lost '
              '(handed out + still queued == submitted), proxies / tree nodes are freed exactly once and never touched afterwards, a wait is released '
              'exactly when all the work it covers has finished, and nobody is left spinning.',
   level_note='Concrete per query: which operations each thread performs (scenario list in evidence); symbolic: schedule, isolation tags, idle flags. '
              'Bounds per harness in evidence (threads <= 3, free rounds 2-4 + 2 forced rounds, loop unroll, <= 3 tasks). Sequential consistency only. '
-             ' The dispatch loop as a whole, task_stream, task_arena::execute delegation, pool growth (>= 48 tasks) '
+             ' The dispatch loop as a whole, task_arena::execute delegation, pool growth (>= 48 tasks) '
              'and get_thread_reference_vertex (std::unordered_map) are outside. Trusted: clang-14 IR, tools/ir2c.py, cbmc, kissat.',
 )
 OUTSIDE = [
   'the dispatch loop as a whole (task_dispatcher::local_wait_for_all / receive_or_steal_task): only the take operations it calls are encoded',
-  'task_stream (enqueue / resume / critical lanes), task_arena::execute delegation (delegated_task), arena entry/exit',
+  'task_stream: the std::deque of a lane is replaced by a bounded harness queue (container contract), so the deque implementation itself, more than 2 lanes / 4 entries, random_lane_selector and the back_nonnull accessor are outside; arena::enqueue_task / get_stream_task / get_critical_task glue above the stream',
+  'task_arena::execute delegation (delegated_task), arena entry/exit',
   'pool growth in prepare_task_pool (needs >= 48 live tasks in a 64-entry pool); only the in-place compaction branch is exercised',
   'r1::get_thread_reference_vertex (std::unordered_map lookup/cleanup); vertices are constructed as it constructs them',
   'two threads mailing to the same mailbox at the same time (one sender per query; push vs pop and push vs pool-side take are covered)',
@@ -193,6 +203,9 @@ OUTSIDE = [
   'user-level API glue (task_group::run/wait, parallel_for partitioners, flow graph) above these kernels; cancellation (skipped instead of run)',
 ]
 STUBS = [
+  'std::deque<d1::task*> members of a task_stream lane (push_back, empty, front, pop_front, pop_back, begin, end, _M_initialize_map; cut): bounded FIFO '
+  'queue of 4 entries per lane with the sequence-container contract; iterators are real std::_Deque_iterator values over that window',
+  'r1::notify_by_address_one (d1::mutex::unlock): no-op, lane mutexes are only try-acquired',
   'r1::cache_aligned_allocate/deallocate: static 64-entry pool storage (the pool is never reallocated in the encoded scenarios; a second allocation or a free fails the run)',
   'r1::allocate / r1::deallocate (small objects: task_proxy, tree_node): fresh heap block per object, deallocate really frees (later access = pointer-check failure) and counts',
   'arena::advertise_new_work<...> (cut): no-op; waking sleeping workers is property C02',
